@@ -275,6 +275,9 @@ pub enum MultiProofVerificationError {
     PathsOutOfOrder,
     /// Extra siblings were provided.
     TooManySiblings,
+    /// The multi-proof is structurally malformed: a path's depth is inconsistent with its terminal
+    /// or with its neighbours, or there are fewer siblings than the paths require.
+    Malformed,
 }
 
 #[derive(Debug, Clone)]
@@ -479,7 +482,17 @@ fn verify_range<H: NodeHasher>(
         // at a terminal node, 'siblings' will contain all unique
         // nodes, hash them up, and return that
         let terminal_path = &paths[0];
+        // the depth must lie between the depth of the enclosing bisection and the length of the
+        // terminal's own path, and all unique siblings must be present.
+        if terminal_path.depth < start_depth
+            || terminal_path.depth > terminal_path.terminal.path().len()
+        {
+            return Err(MultiProofVerificationError::Malformed);
+        }
         let unique_len = terminal_path.depth - start_depth;
+        if unique_len > siblings.len() {
+            return Err(MultiProofVerificationError::Malformed);
+        }
 
         let node = hash_path::<H>(
             terminal_path.terminal.node::<H>(),
@@ -502,13 +515,28 @@ fn verify_range<H: NodeHasher>(
     let start_path = &paths[0];
     let end_path = &paths[paths.len() - 1];
 
+    if start_path.terminal.path().len() < start_depth || end_path.terminal.path().len() < start_depth
+    {
+        return Err(MultiProofVerificationError::Malformed);
+    }
+
     let common_bits = shared_bits(
         &start_path.terminal.path()[start_depth..],
         &end_path.terminal.path()[start_depth..],
     );
 
     let common_len = start_depth + common_bits;
-    // TODO: if `common_len` == 256 the multi-proof is malformed. error
+
+    // both ends of the range must extend past the common prefix (in particular `common_len`
+    // cannot be 256, and neither may be a prefix of the other), and the common siblings must
+    // exist. Since the paths are strictly ascending, every path in between then shares the common
+    // prefix and extends past it as well.
+    if start_path.terminal.path().len() <= common_len
+        || end_path.terminal.path().len() <= common_len
+        || common_bits > siblings.len()
+    {
+        return Err(MultiProofVerificationError::Malformed);
+    }
 
     let uncommon_start_len = common_len + 1;
 
@@ -548,6 +576,7 @@ fn verify_range<H: NodeHasher>(
     )?;
 
     // now that we know how many siblings were used on the left, we can recurse into the right.
+    // (`left_siblings_used` never exceeds the length of the slice handed to the left recursion.)
     let (right_node, right_siblings_used) = verify_range::<H>(
         uncommon_start_len,
         &paths[bisect_idx..],
